@@ -457,6 +457,7 @@ func runC17(rc *RunCtx) {
 		}
 	}
 	c17SmallOrderings(rc)
+	c17DuplicateAtEveryValue(rc)
 	if rc.Shard == 0 {
 		c17ChecksumCollisions(rc)
 	}
@@ -509,6 +510,64 @@ func runC17(rc *RunCtx) {
 				}
 				c17Raw(rc, src, dst, "reachable", gs)
 				rc.Cov.Cell("C17_roundtrips", "reachable")
+			}
+		}
+	}
+}
+
+// c17DuplicateAtEveryValue: for every domain id of sweepDomains (and the same numbers as nonces) a genesis whose
+// list holds that key twice (adjacent, and separated by another entry) must be rejected, and the same list without
+// the repetition accepted. Duplicate detection does not depend on which number the key is.
+func c17DuplicateAtEveryValue(rc *RunCtx) {
+	for i, d := range sweepDomains() {
+		if i%rc.NShards != rc.Shard {
+			continue
+		}
+		for kind := 0; kind < 4; kind++ {
+			for shape := 0; shape < 3; shape++ { // 0 no duplicate, 1 adjacent, 2 separated by a neighbour key
+				gs := StdGenesis()
+				gs.UsedNoncesList, gs.TokenMessengerList, gs.TokenPairList = nil, nil, nil
+				keys := []uint32{d, d ^ 1}
+				switch shape {
+				case 1:
+					keys = []uint32{d, d, d ^ 1}
+				case 2:
+					keys = []uint32{d, d ^ 1, d}
+				}
+				for vi, k := range keys {
+					switch kind {
+					case 0:
+						gs.UsedNoncesList = append(gs.UsedNoncesList, ct.Nonce{SourceDomain: 3, Nonce: uint64(k)})
+					case 1:
+						gs.UsedNoncesList = append(gs.UsedNoncesList, ct.Nonce{SourceDomain: k, Nonce: 77})
+					case 2:
+						gs.TokenMessengerList = append(gs.TokenMessengerList, ct.RemoteTokenMessenger{DomainId: k, Address: Messenger(k, vi)})
+					case 3:
+						gs.TokenPairList = append(gs.TokenPairList, ct.TokenPair{RemoteDomain: k, RemoteToken: Token(4), LocalToken: []string{"uusdc", "ueure", "uusdc"}[vi]})
+					}
+				}
+				var verr error
+				func() {
+					defer func() {
+						if p := recover(); p != nil {
+							verr = fmt.Errorf("panic: %v", p)
+							rc.Report(Violation{Props: []string{"C20", "C17"}, Monitor: "crash-tap/recover", Sig: "panic:GenesisState.Validate", Detail: fmt.Sprint(p), Case: c17Case(gs)})
+						}
+					}()
+					verr = gs.Validate()
+				}()
+				rc.Cov.Evaluations++
+				name := []string{"used-nonces(nonce)", "used-nonces(domain)", "messengers", "pairs"}[kind]
+				rc.Cov.Cell("C17_duplicate_at_every_value", fmt.Sprintf("%s/shape=%d/accepted=%v", name, shape, verr == nil))
+				rc.Cov.Assert("C17.collision-implies-reject")
+				if shape > 0 && verr == nil {
+					rc.Report(Violation{Props: []string{"C17"}, Monitor: "validate/collision", Sig: "C17:validate-accepts-duplicate:" + strings.Split(name, "(")[0],
+						Detail: fmt.Sprintf("Validate accepted a genesis in which two entries of %s occupy the key %d", name, d), Case: c17Case(gs)})
+				}
+				if shape == 0 && verr != nil {
+					rc.Report(Violation{Props: []string{"C17"}, Monitor: "validate/collision", Sig: "C17:validate-rejects-distinct-keys:" + strings.Split(name, "(")[0],
+						Detail: "Validate rejected a genesis whose entries all have distinct keys: " + verr.Error(), Case: c17Case(gs)})
+				}
 			}
 		}
 	}
@@ -727,6 +786,9 @@ func keyClass(k string) string {
 
 func runC19(rc *RunCtx) {
 	r := rc.Rand
+	if rc.Shard == 1%rc.NShards {
+		attesterIdentifierStructure(rc, "C19_identifier_structure")
+	}
 	// (1) registry-heavy histories with a full query comparison after every transaction
 	for h := 0; h < rc.Pick(2, 8); h++ {
 		e, err := StdEngine(rc, false, false, func(gs *ct.GenesisState, cfg *chain.Config) {
